@@ -173,6 +173,19 @@ Theorem C11_crosscov_is_lagged_mean :
 Proof. exact crosscov_is_lagged_mean_lemma. Qed.
 Print Assumptions C11_crosscov_is_lagged_mean.
 
+(* the default keyword nlags=None means all N lags, lag k averaged over its own N - k products *)
+Theorem C11_crosscov_default_all_lags :
+  forall (x y : list (list Q)) i j k,
+    let N := length (nth 0 x []) in
+    (i < length x)%nat -> (j < length y)%nat -> (k < N)%nat ->
+    length (nth i x []) = N -> length (nth j y []) = N ->
+    length (nth j (nth i (crosscov_vector_kw x y None) []) []) = N /\
+    nth k (nth j (nth i (crosscov_vector_kw x y None) []) []) 0 ==
+    sumn (fun t => nth (t + k) (nth i x []) 0 * nth t (nth j y []) 0) (N - k)
+    / inject_Z (Z.of_nat (N - k)).
+Proof. exact crosscov_default_is_lagged_mean_lemma. Qed.
+Print Assumptions C11_crosscov_default_all_lags.
+
 (* entry (i, j) of the k-th matrix handed to the recursion is E x_i(t + k) x_j(t) = R(k)[i, j] *)
 Theorem C11_rxx_is_lagged_mean :
   forall (x : list (list Q)) nlags i j k,
